@@ -11,6 +11,7 @@ Decided statically (E1 layout types + structural pairing rules):
   result-domain  project/transpose answer in the requested order; binary ops answer over the merged domain
   out-contract   every `x.exp/log/copy(out=y)` call site passes the receiver itself
   axes-primitive Domain.axes is a by-name lookup into the domain's own attribute tuple
+  none-test      an `attrs=None` default meaning "aggregate everything" is tested against None, not by truthiness
   cv-keys        CliqueVector arithmetic pairs equal keys;  cv-combine adds each source factor to exactly
                  one containing target clique
 Not decided: value-level behaviour of the numpy primitives themselves (trusted).
@@ -125,6 +126,8 @@ def run(ctx):
     check_out_callsites(ctx)
     check_axes_primitive(ctx)
     check_clique_vector(ctx)
+    from .C15 import none_tests
+    none_tests(ctx, FACTOR, 'Factor')
 
 
 def canon(t):
